@@ -35,6 +35,14 @@ def Fam.get2 (f : Fam) (key : List Int) (k : Int) : Except Err Node := do
 /-- `[node for nodes in fam.values() for node in nodes.values()]` -/
 def Fam.nodes (f : Fam) : List Node := f.flatMap fun e => e.2.map (·.2)
 
+/-- create several families one after the other with one running node-id counter -/
+def mkFams : List (List (List Int × List Int × Int)) → Int → List Fam × Int
+  | [], n => ([], n)
+  | spec :: rest, n =>
+    let r := mkFam spec n
+    let rs := mkFams rest r.2
+    (r.1 :: rs.1, rs.2)
+
 /-- `MolecularOpGraphNodes` -/
 structure MolNodes where
   L : Int
@@ -51,39 +59,38 @@ structure MolNodes where
   aAnnAAnnR : Fam
   aDagAAnnR : Fam
 
-/-- `MolecularOpGraphNodes.__init__` -/
-def MolNodes.init (L : Int) : MolNodes :=
+/-- the ten node families of `MolecularOpGraphNodes.__init__` in creation order: (outer key, inner keys, charge) -/
+def molSpecs (L : Int) : List (List (List Int × List Int × Int)) :=
   let h := L / 2
+  [ -- a^{\dagger}_i operators connected to left terminal
+    (pyRange 0 (L - 2)).map fun i => ([i], pyRange (i + 1) (L - 1), 1),
+    -- a_i operators connected to left terminal
+    (pyRange 0 (L - 2)).map fun i => ([i], pyRange (i + 1) (L - 1), -1),
+    -- a^{\dagger}_i a^{\dagger}_j operators connected to left terminal
+    (pyRange 0 (h - 1)).flatMap fun i => (pyRange (i + 1) h).map fun j => ([i, j], pyRange (j + 1) (h + 1), 2),
+    -- a_i a_j operators connected to left terminal
+    (pyRange 0 h).flatMap fun i => (pyRange 0 i).map fun j => ([i, j], pyRange (i + 1) (h + 1), -2),
+    -- a^{\dagger}_i a_j operators connected to left terminal
+    (pyRange 0 h).flatMap fun i => (pyRange 0 h).map fun j => ([i, j], pyRange (max i j + 1) (h + 1), 0),
+    -- a^{\dagger}_i operators connected to right terminal
+    (pyRange 2 L).map fun i => ([i], pyRange 2 (i + 1), -1),
+    -- a_i operators connected to right terminal
+    (pyRange 2 L).map fun i => ([i], pyRange 2 (i + 1), 1),
+    -- a^{\dagger}_i a^{\dagger}_j operators connected to right terminal
+    (pyRange (h + 1) (L - 1)).flatMap fun i => (pyRange (i + 1) L).map fun j => ([i, j], pyRange (h + 1) (i + 1), -2),
+    -- a_i a_j operators connected to right terminal
+    (pyRange (h + 1) L).flatMap fun i => (pyRange (h + 1) i).map fun j => ([i, j], pyRange (h + 1) (j + 1), 2),
+    -- a^{\dagger}_i a_j operators connected to right terminal
+    (pyRange (h + 1) L).flatMap fun i => (pyRange (h + 1) L).map fun j => ([i, j], pyRange (h + 1) (min i j + 1), 0) ]
+
+/-- `MolecularOpGraphNodes.__init__`: identity chains first, then the families, with one running `nid_next` -/
+def MolNodes.init (L : Int) : MolNodes :=
   let identityL : List (Int × Node) := (pyRange 0 L).map fun i => (i, ⟨i, [], [], 0⟩)
   let identityR : List (Int × Node) := (pyRange 1 (L + 1)).map fun i => (i, ⟨L + i - 1, [], [], 0⟩)
   let nid : Int := ((identityL.length + identityR.length : Nat) : Int)
-  -- a^{\dagger}_i operators connected to left terminal
-  let (aDagL, nid) := mkFam ((pyRange 0 (L - 2)).map fun i => ([i], pyRange (i + 1) (L - 1), 1)) nid
-  -- a_i operators connected to left terminal
-  let (aAnnL, nid) := mkFam ((pyRange 0 (L - 2)).map fun i => ([i], pyRange (i + 1) (L - 1), -1)) nid
-  -- a^{\dagger}_i a^{\dagger}_j operators connected to left terminal
-  let (aDagADagL, nid) := mkFam ((pyRange 0 (h - 1)).flatMap fun i => (pyRange (i + 1) h).map fun j =>
-    ([i, j], pyRange (j + 1) (h + 1), 2)) nid
-  -- a_i a_j operators connected to left terminal
-  let (aAnnAAnnL, nid) := mkFam ((pyRange 0 h).flatMap fun i => (pyRange 0 i).map fun j =>
-    ([i, j], pyRange (i + 1) (h + 1), -2)) nid
-  -- a^{\dagger}_i a_j operators connected to left terminal
-  let (aDagAAnnL, nid) := mkFam ((pyRange 0 h).flatMap fun i => (pyRange 0 h).map fun j =>
-    ([i, j], pyRange (max i j + 1) (h + 1), 0)) nid
-  -- a^{\dagger}_i operators connected to right terminal
-  let (aDagR, nid) := mkFam ((pyRange 2 L).map fun i => ([i], pyRange 2 (i + 1), -1)) nid
-  -- a_i operators connected to right terminal
-  let (aAnnR, nid) := mkFam ((pyRange 2 L).map fun i => ([i], pyRange 2 (i + 1), 1)) nid
-  -- a^{\dagger}_i a^{\dagger}_j operators connected to right terminal
-  let (aDagADagR, nid) := mkFam ((pyRange (h + 1) (L - 1)).flatMap fun i => (pyRange (i + 1) L).map fun j =>
-    ([i, j], pyRange (h + 1) (i + 1), -2)) nid
-  -- a_i a_j operators connected to right terminal
-  let (aAnnAAnnR, nid) := mkFam ((pyRange (h + 1) L).flatMap fun i => (pyRange (h + 1) i).map fun j =>
-    ([i, j], pyRange (h + 1) (j + 1), 2)) nid
-  -- a^{\dagger}_i a_j operators connected to right terminal
-  let (aDagAAnnR, _) := mkFam ((pyRange (h + 1) L).flatMap fun i => (pyRange (h + 1) L).map fun j =>
-    ([i, j], pyRange (h + 1) (min i j + 1), 0)) nid
-  ⟨L, identityL, identityR, aDagL, aAnnL, aDagADagL, aAnnAAnnL, aDagAAnnL, aDagR, aAnnR, aDagADagR, aAnnAAnnR, aDagAAnnR⟩
+  let fams := (mkFams (molSpecs L) nid).1
+  ⟨L, identityL, identityR, fams.getD 0 [], fams.getD 1 [], fams.getD 2 [], fams.getD 3 [], fams.getD 4 [],
+   fams.getD 5 [], fams.getD 6 [], fams.getD 7 [], fams.getD 8 [], fams.getD 9 []⟩
 
 /-- `sorted((i, j))` -/
 def sort2 (i j : Int) : Int × Int := if i ≤ j then (i, j) else (j, i)
